@@ -75,6 +75,11 @@ def build(case):
         P = X @ X.T
         P *= case["cpl"] * np.sqrt(np.outer(b[el] + 1e-3, b[el] + 1e-3)) / np.abs(P).max()
         Bm[np.ix_(el, el)] += P
+        if case.get("bgyro"):
+            # gyroscopic (skew-symmetric) part: the damping matrix is then not symmetric
+            Y = util.rng_of(case["seed"] + 93).standard_normal((len(el), len(el)))
+            G = Y - Y.T
+            Bm[np.ix_(el, el)] += float(case["bgyro"]) * np.abs(P).max() * G / max(np.abs(G).max(), 1e-300)
     return dict(n=n, m=m, b=b, k=k, Bm=Bm, rb=rb, rf=rf, el=el, F=F, d0=d0, v0=v0, h=h, nt=nt)
 
 
@@ -192,7 +197,13 @@ def oracle(case, R):
         M_in = iP.T @ Mm @ iP
         B_in = iP.T @ Bm @ iP
         K_in = iP.T @ Km @ iP
-        M_in, B_in, K_in = (M_in + M_in.T) / 2, (B_in + B_in.T) / 2, (K_in + K_in.T) / 2
+        if not np.array_equal(Bm, Bm.T):
+            Bs_, Bk_ = iP.T @ ((Bm + Bm.T) / 2) @ iP, iP.T @ ((Bm - Bm.T) / 2) @ iP
+            B_in = (Bs_ + Bs_.T) / 2 + (Bk_ - Bk_.T) / 2       # symmetric and skew parts cleaned of round-off separately
+            R.label("damping:nonsymmetric")
+        else:
+            B_in = (B_in + B_in.T) / 2
+        M_in, K_in = (M_in + M_in.T) / 2, (K_in + K_in.T) / 2
         F_in = iP.T @ F
         kapPhi = np.linalg.cond(Phi) ** 2
         if case.get("pre_eig"):
@@ -535,6 +546,7 @@ def cases(draw, form):
     return {"ppack": draw(st.sampled_from(util.PART_FORMS)),
             "icform": draw(st.sampled_from(["asis", "asis", "zeros_d0", "zeros_v0", "zeros_both", "only_d0", "only_v0"])),
             "kskew": draw(st.sampled_from([0.0, 0.0, 0.1, 0.3])) if form == "nonprop" else 0.0,
+            "bgyro": draw(st.sampled_from([0.0, 0.0, 0.5, 2.0])) if form in ("nonprop", "physical") else 0.0,
             "form": form, "h": h, "modes": modes, "nt": draw(st.integers(2, 40)),
             "order": draw(st.sampled_from([0, 1])), "seed": draw(st.integers(0, 2 ** 31)),
             "mform": mform, "rb_given": rb_given, "perm": draw(st.booleans()),
